@@ -451,8 +451,23 @@ int register_mod_src(m_mod_t *mod, m_src_types type, const void *src_data,
             if (ret == 0 && src->type == M_SRC_TYPE_TASK) {
                 ret = start_task(c, src);
             }
+            if (ret != 0) {
+                /*
+                 * The source could not be polled (eg: unpollable fd, out of memory):
+                 * the registration failed, thus it must leave no trace.
+                 * Undo what was done, without touching the user's fd nor the user's data.
+                 */
+                ret = ret < -1 ? ret : (errno ? -errno : -EINVAL);
+                unpoll_src(src);
+                if (!(src->flags & M_SRC_DUP)) {
+                    src->flags &= ~M_SRC_FD_AUTOCLOSE;
+                }
+                src->flags &= ~M_SRC_AUTOFREE;
+                m_bst_remove(mod->srcs[type], src);
+                return ret;
+            }
         }
-        return !ret ? 0 : -errno;
+        return 0;
     }
     /*
      * Registration refused (eg: already registered): it must leave no trace.
